@@ -16,7 +16,7 @@
 EXTENDS Pipeline, Json
 CONSTANTS ReservedCheck
 
-NumLexDef == [t \in {"0","1","2","3","0.5","1.5"} |-> CASE t = "0.5" -> <<1,2>> [] t = "1.5" -> <<3,2>> [] t = "0" -> <<0,1>> [] t = "1" -> <<1,1>> [] t = "2" -> <<2,1>> [] t = "3" -> <<3,1>>]
+NumLexDef == [t \in {"0","1","2","3","0.5","1.5","18"} |-> CASE t = "0.5" -> <<1,2>> [] t = "1.5" -> <<3,2>> [] t = "18" -> <<18,1>> [] t = "0" -> <<0,1>> [] t = "1" -> <<1,1>> [] t = "2" -> <<2,1>> [] t = "3" -> <<3,1>>]
 N(tok) == NumOf(tok)
 
 TemplateLocals == {"states", "parameters", "values", "shape", "missing_variables", "numpy", "dt", "t", "time"}
@@ -43,8 +43,8 @@ ModelOf(id, r) ==
                         <<[name |-> w, e |-> LET A == Bn("add", Bn("mul", Var(p), Var(s)), Var("y")) IN Bn("mul", A, A)],   \* a repeated sub-expression
                           \* two statements that do not mention the identifier, the second with a repeated sub-expression,
                           \* between its definition and its later uses
-                          [name |-> "u", e |-> Bn("add", Var(w), N("1"))],
-                          [name |-> "v", e |-> LET UY == Bn("add", Var("u"), Var("y")) IN Bn("div", UY, Bn("add", N("1"), Bn("mul", UY, UY)))],
+                          [name |-> "u", e |-> Bn("sub", Var(w), N("18"))],      \* (numbers chosen so that every value stays inside the rational bound)
+                          [name |-> "v", e |-> LET UY == Bn("add", Var("u"), Var("y")) IN Bn("div", UY, Bn("add", N("2"), UY))],
                           [name |-> DName(s), e |-> Bn("add", Bn("sub", Var(w), Var(s)), Var("v"))],
                           [name |-> "dy_dt", e |-> Bn("mul", Var(s), Var(p))]>>] >>]
 NameOrderDef == <<"E">>   \* not used for sorting here: the layout is compared by name only
@@ -80,9 +80,9 @@ Run(m_id, r, scheme) ==
       av == Arith("add", Arith("mul", V(e3, p), V(e3, s)), V(e3, "y"))
       wv == Arith("mul", av, av)
       e4a == Bind(e3, w, wv)
-      e4b == Bind(e4a, "u", Arith("add", V(e4a, w), Q(1,1)))
+      e4b == Bind(e4a, "u", Arith("sub", V(e4a, w), Q(18,1)))
       bv == Arith("add", V(e4b, "u"), V(e4b, "y"))
-      e4 == Bind(e4b, "v", Arith("div", bv, Arith("add", Q(1,1), Arith("mul", bv, bv))))
+      e4 == Bind(e4b, "v", Arith("div", bv, Arith("add", Q(2,1), bv)))
       ds == Arith("add", Arith("sub", V(e4, w), V(e4, s)), V(e4, "v"))
       e5 == Bind(e4, DName(s), ds)
       dy == Arith("mul", V(e5, s), V(e5, p))
